@@ -198,7 +198,7 @@ func validateStruct(val reflect.Value, opts *options) error {
 func validateMap(val reflect.Value, opts *options) error {
 	keys := val.MapKeys()
 	sort.Slice(keys, func(i, j int) bool {
-		return mapKeyString(keys[i]) < mapKeyString(keys[j])
+		return mapKeyLess(keys[i], keys[j])
 	})
 	for _, key := range keys {
 		if err := tryRecursiveValidate(val.MapIndex(key), opts, nil); err != nil {
